@@ -284,8 +284,9 @@ class Current(_Scope):
         ok = len(self.calls) == 1
         st.check("C01-P4:the-lookup-is-answered-by-the-current-scope-state-with-the-callers-type-and-default",
                  z3.BoolVal(ok) if not ok else
-                 z3.And(self.calls[0][0] == cur, self.calls[0][1].pos[0] == T, self.calls[0][1].kw.get("default") == default,
-                        ret == self.inner_ret))
+                 (lambda a: z3.BoolVal(False) if (a["state"] is None or a["default"] is None or a["$extra"])
+                  else z3.And(self.calls[0][0] == cur, a["state"] == T, a["default"] == default, ret == self.inner_ret))(
+                     named_args(self.calls[0][1], "state", "default")))
         st.check("canary", z3.BoolVal(False), kind="canary")
 
 
@@ -347,7 +348,7 @@ class UpdatedCtx(_Scope):
                      z3.BoolVal(ok) if not ok else
                      z3.And(self.calls[0][0] == cur, child == self.inner_ret))
             if ok:
-                arg = self.calls[0][1].kw.get("state")
+                arg = named_args(self.calls[0][1], "state")["state"]
                 a1, l1, h1 = lib.seq_view(it, arg)
                 a2, l2, h2 = lib.seq_view(it, new)
                 i = z3.Int("i!u")
